@@ -60,7 +60,7 @@ def run(ck):
         tp = os.path.join(ck.dir, "g%d.ndjson" % lvl)
         deaths = vlib.run_executions(exe, lambda st: ["c07", "replay", sp, st, lvl], len(scripts), tp)
         vlib.conformance(ck, name, "TraceSeqGap", "trace.cfg", tp, deaths, diag_of, min_events=len(scripts))
-    n = 6000 if thorough else 1200
+    n = 20000 if thorough else 1200
     tp = os.path.join(ck.dir, "v.ndjson")
     deaths = vlib.run_executions(exe, lambda st: ["c07", "drive", st, n, 100], n, tp)
     vlib.conformance(ck, "V:boundary-biased-histories", "TraceSeqGap", "trace.cfg", tp, deaths, diag_of, min_events=n)
